@@ -247,7 +247,7 @@ pub fn damaged_job(p: &Program, faults: &[SrcFault]) -> JobSpec {
 }
 
 /// Number of option vectors of the "options" enumeration: -O0..3 x --insert-code x -W all x --fsigned_char.
-pub const OPTION_VECTORS: usize = 32;
+pub const OPTION_VECTORS: usize = 160;
 
 pub fn option_vector(idx: usize, p: &Program) -> Vec<String> {
     let mut args = vec![format!("-O{}", idx % 4)];
@@ -260,6 +260,14 @@ pub fn option_vector(idx: usize, p: &Program) -> Vec<String> {
     }
     if idx & 16 != 0 {
         args.push("--fsigned_char".into());
+    }
+    // the bankswitching scheme of the reference builder (vectors 32..159)
+    match idx / 32 {
+        1 => args.extend(["-D".to_string(), "__3E__".to_string()]),
+        2 => args.extend(["-D".to_string(), "__3E_PLUS__".to_string()]),
+        3 => args.extend(["-D".to_string(), "__DPC__".to_string()]),
+        4 => args.extend(["-D".to_string(), "__DPCPLUS__".to_string()]),
+        _ => {}
     }
     // keep the program's own -D / -I options
     let mut it = p.args.iter();
@@ -284,6 +292,42 @@ pub fn c16_enum_world(corpus: &[Program], pi: usize, kind: &str, idx: usize) -> 
         w.note = format!("enumerated option vector {} of program {}", idx, pi);
         return w;
     }
+    if kind == "defines" {
+        // a hostile -D option (or one of the program's own first identifiers defined as a line break) x
+        // {program as is, its last token lost, an undeclared name before its last token}: configuration
+        // faults meet an error on the last lines
+        let nd = HOSTILE_DEFINES.len() + OWN_DEFINES;
+        let (d, variant) = (idx % nd, idx / nd);
+        let toks = faults::tokens(&p.source);
+        let def = if d < HOSTILE_DEFINES.len() {
+            HOSTILE_DEFINES[d].to_string()
+        } else {
+            let ids: Vec<String> = faults::own_vocabulary(&p.source)
+                .into_iter()
+                .filter(|t| t.first().map(|c| c.is_ascii_alphabetic() || *c == b'_').unwrap_or(false))
+                .filter(|t| t.iter().all(|c| c.is_ascii_alphanumeric() || *c == b'_'))
+                .map(|t| String::from_utf8_lossy(&t).to_string())
+                .collect();
+            if ids.is_empty() {
+                "X=\n".to_string()
+            } else {
+                format!("{}=\n{}", ids[(d - HOSTILE_DEFINES.len()) * 7 % ids.len()], if d % 2 == 0 { "" } else { "1" })
+            }
+        };
+        let fl: Vec<SrcFault> = match (variant, toks.last()) {
+            (1, Some(t)) => vec![SrcFault::Lost(t.0, t.1)],
+            (2, Some(t)) => vec![SrcFault::Insert(t.0, " undeclared_zz = 1; ".to_string())],
+            _ => vec![],
+        };
+        let mut j = damaged_job(p, &fl);
+        j.args = option_vector(pi % 32, p);
+        j.args.push("-D".into());
+        j.args.push(def);
+        j.label = format!("{} define#{}", p.name, idx);
+        let mut w = World::solo("C16", j);
+        w.note = format!("enumerated hostile define {} variant {} of program {}", d, variant, pi);
+        return w;
+    }
     let f = faults::nth(kind, &p.source, idx);
     let mut w = World::solo("C16", damaged_job(p, &[f]));
     w.note = format!("enumerated single fault: program {} kind {} index {}", pi, kind, idx);
@@ -296,7 +340,18 @@ pub fn c16_enum_world(corpus: &[Program], pi: usize, kind: &str, idx: usize) -> 
     w
 }
 
-pub const HOSTILE_DEFINES: [&str; 12] = ["A=A", "=", "1X", "F(x)=x", "", "main", "char=short", "X=Y", "(", "A=B", "i=i+1", "void"];
+/// number of "own identifier defined as a line break" options of the "defines" enumeration
+pub const OWN_DEFINES: usize = 6;
+/// size of the "defines" enumeration per program
+pub const DEFINE_WORLDS: usize = (22 + OWN_DEFINES) * 3;
+
+pub const HOSTILE_DEFINES: [&str; 22] = [
+    "A=A", "=", "1X", "F(x)=x", "", "main", "char=short", "X=Y", "(", "A=B", "i=i+1", "void",
+    // line breaks in a value (the shell passes them happily), names every program uses
+    "X=\n", "char=\nchar", "void=void\r\n", "main=\n\nmain", "Y=1\n2",
+    // the bankswitching schemes the reference builder knows
+    "__3E__", "__3E_PLUS__", "__DPC__", "__DPCPLUS__", "__3E__=0",
+];
 
 pub const INCLUDE_FAULTS: [&str; 9] =
     ["missing", "empty", "is_directory", "truncated", "corrupt", "self_include", "mutual_include", "name_too_long", "non_utf8"];
@@ -368,7 +423,7 @@ pub fn c16_world(seed: u64, corpus: &[Program]) -> World {
     let with_inc: Vec<usize> = (0..corpus.len()).filter(|i| !corpus[*i].includes.is_empty()).collect();
     let pi = if !with_inc.is_empty() && r.chance(1, 6) { *r.pick(&with_inc) } else { r.usize_below(corpus.len()) };
     let p = match r.below(8) {
-        _ if r.chance(1, 400) => big(r.next_u64()),
+        _ if r.chance(1, 150) => big(r.next_u64()),
         0 => soup(r.next_u64()),
         1 | 2 => progen(r.next_u64()),
         _ => corpus[pi].clone(),
